@@ -37,6 +37,13 @@ func LoadContracts(repo string) (*Contracts, error) {
 			}
 		}
 	}
+	cms, _ := filepath.Glob(filepath.Join(filepath.Dir(TrustedDir), "contracts", "*.spec"))
+	sort.Strings(cms)
+	for _, m := range cms {
+		if err := cs.ParseContractFile(m, strings.TrimSuffix(filepath.Base(m), ".spec")); err != nil {
+			return nil, err
+		}
+	}
 	ms, _ := filepath.Glob(filepath.Join(TrustedDir, "*.spec"))
 	sort.Strings(ms)
 	for _, m := range ms {
@@ -58,6 +65,8 @@ func (fv *FuncVC) finish() {
 			panic(r)
 		}
 	}()
+	fv.inFinish = true
+	fv.curReach = tTrue
 	done := map[string]bool{}
 	for _, u := range strings.FieldsFunc(fv.FC.Opts["use"], func(r rune) bool { return r == ',' || r == ' ' }) {
 		fv.forceAxioms[u] = true
@@ -71,7 +80,7 @@ func (fv *FuncVC) finish() {
 			if ax.Lemma && fv.lemmaName == ax.Name {
 				continue // a lemma is not available to its own proof
 			}
-			use := fv.forceAxioms[ax.Name]
+			use := fv.forceAxioms[ax.Name] || strings.Contains(ax.Hint, "always")
 			if !use {
 				for _, s := range specsIn(ax.E) {
 					if fv.usedSpecs[s] {
